@@ -26,7 +26,9 @@ func NewKeyBackuper(privateFolder, publicFolder string, storage api.BackupKeysto
 // Export keys from KeyStore encrypted with new key for backup
 func (store *KeyBackuper) Export(exportIDs []keystoreV1.ExportID, mode keystoreV1.ExportMode) (*keystoreV1.KeysBackup, error) {
 	var exportPaths []string
-	if mode == keystoreV1.ExportAllKeys {
+	// No export IDs means "all keys" (`acra-keys export --all`), whichever mode is requested:
+	// with --private_keys the mode is ExportPrivateKeys, not ExportAllKeys.
+	if mode == keystoreV1.ExportAllKeys || len(exportIDs) == 0 {
 		var err error
 		exportPaths, err = store.storage.ListKeyRings()
 		if err != nil {
